@@ -953,6 +953,12 @@ impl TCheck {
                     .filter(|o| matches!(op_info(o.req.opcode).kind, Kind::Delete))
                     .filter(|d| stores.iter().any(|q| q.client != d.client && q.inv <= d.ret && d.inv <= q.ret))
                     .count() as u64;
+                // both recorded races go through the sweep's empty-store reset: they need a moment at
+                // which the store held nothing. If more records are there at the end than the clients
+                // stored, a record of the initialisation survived and the store was never empty.
+                let client_stores_ok = stores.len() as u64;
+                let may_have_been_empty = h.items_end <= client_stores_ok;
+                let racing_deletes = if may_have_been_empty { racing_deletes } else { 0 };
                 let bound_with_races = bound.saturating_add(racing_deletes * largest_record);
                 if h.stored_bytes_end > bound && h.stored_bytes_end <= bound_with_races {
                     viols.push(Violation::new(
@@ -972,11 +978,15 @@ impl TCheck {
                 // a store whose eviction sweep finds the store empty resets the usage counter by
                 // everything accounted before it - including the record of a concurrent store that
                 // has been accounted but not yet written: the counter then under-counts by that record
-                let racing_store_bytes: u64 = stores
-                    .iter()
-                    .filter(|o| stores.iter().any(|q| q.client != o.client && q.inv <= o.ret && o.inv <= q.ret))
-                    .map(|o| record_size(&o.req))
-                    .sum();
+                let racing_store_bytes: u64 = if may_have_been_empty {
+                    stores
+                        .iter()
+                        .filter(|o| stores.iter().any(|q| q.client != o.client && q.inv <= o.ret && o.inv <= q.ret))
+                        .map(|o| record_size(&o.req))
+                        .sum()
+                } else {
+                    0
+                };
                 for (i, (stored, reclen, acked)) in h.settle.iter().enumerate() {
                     if !*acked {
                         continue;
